@@ -135,7 +135,7 @@ func c14Walk(fm *fieldmask.FieldMask, n *fmref.Node, black bool, t *idl.Type, de
 				}
 			}
 		case "string", "binary":
-			for _, k := range []string{"absent", "k1", "no such key", "", "other"} {
+			for _, k := range []string{"absent", "k1", "no such key", "", "other", "q\"uote", "back\\slash", "tab\there", "é", "q\\\"uote"} {
 				var sub *fieldmask.FieldMask
 				var ex bool
 				if pn := safely(func() { sub, ex = fm.Str(k) }); pn != "" {
